@@ -711,6 +711,13 @@ func (p *nriPlugin) getPendingUpdates(skip *api.Container) []*api.ContainerUpdat
 		}
 	}
 
+	// The cache was last saved before the policy applied its decisions. Persist
+	// what the runtime is being told, so that a restart does not start from stale
+	// container resources.
+	if err := m.cache.Save(); err != nil {
+		log.Warnf("failed to save cache: %v", err)
+	}
+
 	return updates
 }
 
